@@ -67,6 +67,7 @@ def run(chk):
     r4(chk, prog, m)
     own.rule_leaks(chk, prog, "C19.R5", only_functions={"sprintbuf", "printbuf_new", "printbuf_free"}, floor=2)
     r_macro(chk, prog)
+    r6(chk, prog, m)
     chk.undecided_clauses += [
         "contents equal to a byte-array model over operation histories (value-level)",
         "vsnprintf / vasprintf behaviour inside sprintbuf",
@@ -270,3 +271,56 @@ def r_macro(chk, prog):
                     else:
                         chk.refuted(rid, f.name, sig, i.locstr(), "inline copy into the print buffer is not guarded by the free-space test")
     chk.note("%d inline expansions of printbuf_memappend_fast found in library code" % n)
+
+
+def r6(chk, prog, m):
+    rid = "C19.R6"
+    chk.rule(rid, "formatted print: the stack buffer filled by vsnprintf(buf, cap, ...) is appended with the returned length n only on "
+                  "paths where 0 <= n < cap (C11 7.21.6.12: the output is complete only then); otherwise the heap fallback is used")
+    f = m.functions.get("sprintbuf")
+    chk.require(f is not None and not f.is_decl, "sprintbuf not found")
+    chk.touched(f)
+    P = Paths(f, prog)
+    w = Walker(prog, f, view="signed")
+    res = {"n": 0, "bad": [], "fmt": {}}
+
+    def on_instr(w, st, i):
+        if i.op == "call" and i.callee in ("vsnprintf", "snprintf"):
+            cap = w.val(st, i.ops[1])
+            st.fmtcall = (P.path(i.ops[0]), cap, i)
+        if i.op == "call" and i.callee == "printbuf_memappend":
+            src = P.path(i.ops[1])
+            fc = getattr(st, "fmtcall", None)
+            if fc and src.split("[")[0] == fc[0].split("[")[0]:
+                res["n"] += 1
+                n = w.val(st, i.ops[2])
+                # the length must be the formatting call's result
+                rn = st.env.get(fc[2].res)
+                if not (isinstance(n, Lin) and isinstance(rn, Lin) and isinstance(fc[1], Lin)):
+                    res["bad"].append((i, "length or capacity not resolved"))
+                    return
+                if not (w.entails(st, n - rn) and w.entails(st, rn - n)):
+                    res["bad"].append((i, "the appended length is not the formatting call's result"))
+                    return
+                if not (w.entails(st, n.scale(-1)) and w.entails(st, n + const(1) - fc[1])):
+                    res["bad"].append((i, "the stack buffer (capacity %r) is appended with length n = %r although the guards on this path (%s) "
+                                       "do not give 0 <= n < capacity: for n == capacity the output was truncated and its last byte is the "
+                                       "terminator, not text" % (fc[1], n, st.prov)))
+    orig_copy = pathlin.PState.copy
+
+    def copy_keep(self):
+        s2 = orig_copy(self)
+        s2.fmtcall = getattr(self, "fmtcall", None)
+        return s2
+    pathlin.PState.copy = copy_keep
+    try:
+        w.on_instr = on_instr
+        w.run(lambda w, st: None)
+    finally:
+        pathlin.PState.copy = orig_copy
+    if res["bad"]:
+        i, msg = res["bad"][0]
+        chk.refuted(rid, f.name, "stack buffer append", i.locstr(), msg)
+    else:
+        chk.proven(rid, f.name, "stack buffer append", f.entry.term.locstr(), "%d append(s) of the stack buffer guarded by 0 <= n < capacity" % res["n"])
+    chk.floor(rid, res["n"], 1, "appends of the vsnprintf stack buffer")
